@@ -460,4 +460,223 @@ theorem setOf_applyAt_other (w : RWorld) (g g' : Nat) (op : Op) (hne : g' ≠ g)
     (w.applyAt g op).1.setOf g' = w.setOf g' := by
   simp [RWorld.applyAt, RWorld.setOf, List.getD, Ne.symm hne]
 
+/-! ### a concrete step bound -/
+
+/-- frames that still have to read the attributes of the node they yielded last -/
+def lastCount (st : List RFrame) : Nat := (st.filter (fun fr => fr.last.isSome)).length
+
+theorem lastCount_le (st : List RFrame) : lastCount st ≤ st.length := List.length_filter_le _ _
+
+/-- every step that does not end the run pays for itself: it emits output, or it consumes a
+    pending attribute read -/
+theorem recStep_potential (w : RWorld) (d : Dir) {st st' : List RFrame} {o : List Out} {r : Option Res}
+    (e : recStep w d st = (st', o, r)) (hr : r = none ∨ ∃ v, r = some (.yield v)) :
+    lastCount st' + 1 ≤ 2 * o.length + lastCount st := by
+  cases st with
+  | nil =>
+    simp only [recStep, Prod.mk.injEq] at e
+    obtain ⟨_, _, rfl⟩ := e
+    rcases hr with h | ⟨_, h⟩ <;> cases h
+  | cons fr rest =>
+    cases hl : fr.last with
+    | some v =>
+      rw [recStep_last w d fr rest v hl] at e
+      simp only [Prod.mk.injEq] at e
+      obtain ⟨rfl, rfl, rfl⟩ := e
+      simp [lastCount, List.filter_cons, hl]
+    | none =>
+      cases hp : fr.pending with
+      | cons h ps =>
+        rw [recStep_pending w d fr rest h ps hl hp] at e
+        simp only [Prod.mk.injEq] at e
+        obtain ⟨rfl, rfl, rfl⟩ := e
+        simp [lastCount, List.filter_cons, hl, RFrame.fresh]
+        omega
+      | nil =>
+        cases hres : iterNext (w.setOf fr.g) d fr.c with
+        | mk c' res =>
+          cases res with
+          | yield v =>
+            rw [recStep_yield w d fr rest c' v hl hp hres] at e
+            simp only [Prod.mk.injEq] at e
+            obtain ⟨rfl, rfl, rfl⟩ := e
+            simp [lastCount, List.filter_cons, hl]
+            omega
+          | stop =>
+            rw [recStep_stop w d fr rest c' hl hp hres] at e
+            simp only [Prod.mk.injEq] at e
+            obtain ⟨rfl, rfl, rfl⟩ := e
+            simp [lastCount, List.filter_cons, hl]
+            omega
+          | raised =>
+            simp only [recStep, hl, hp, hres, Prod.mk.injEq] at e
+            obtain ⟨_, _, rfl⟩ := e
+            rcases hr with h | ⟨_, h⟩ <;> cases h
+          | fuel =>
+            simp only [recStep, hl, hp, hres, Prod.mk.injEq] at e
+            obtain ⟨_, _, rfl⟩ := e
+            rcases hr with h | ⟨_, h⟩ <;> cases h
+
+theorem recDrain_cont (w : RWorld) (d : Dir) (f : Nat) {st st' : List RFrame} {o : List Out} {r : Option Res}
+    (hs : recStep w d st = (st', o, r)) (hr : r = none ∨ ∃ v, r = some (.yield v)) :
+    recDrain w d (f + 1) st = (o ++ (recDrain w d f st').1, (recDrain w d f st').2) := by
+  rcases hr with rfl | ⟨v, rfl⟩ <;> simp only [recDrain, hs]
+
+theorem recDrain_end (w : RWorld) (d : Dir) (f : Nat) {st st' : List RFrame} {o : List Out} {r : Res}
+    (hs : recStep w d st = (st', o, some r)) (hr : ∀ v, r ≠ .yield v) :
+    recDrain w d (f + 1) st = (o, r) := by
+  cases r with
+  | yield v => exact absurd rfl (hr v)
+  | stop => simp only [recDrain, hs]
+  | raised => simp only [recDrain, hs]
+  | fuel => simp only [recDrain, hs]
+
+theorem step_cases (r : Option Res) :
+    (r = none ∨ ∃ v, r = some (.yield v)) ∨ (∃ r', r = some r' ∧ ∀ v, r' ≠ .yield v) := by
+  cases r with
+  | none => exact Or.inl (Or.inl rfl)
+  | some r =>
+    cases r with
+    | yield v => exact Or.inl (Or.inr ⟨v, rfl⟩)
+    | stop => exact Or.inr ⟨_, rfl, by intro v h; cases h⟩
+    | raised => exact Or.inr ⟨_, rfl, by intro v h; cases h⟩
+    | fuel => exact Or.inr ⟨_, rfl, by intro v h; cases h⟩
+
+theorem recDrain_succ (w : RWorld) (d : Dir) : ∀ (f : Nat) (st : List RFrame) (outs : List Out),
+    recDrain w d f st = (outs, .stop) → recDrain w d (f + 1) st = (outs, .stop)
+  | 0, _, _, h => by simp [recDrain] at h
+  | f + 1, st, outs, h => by
+      cases hs : recStep w d st with
+      | mk st' p =>
+        obtain ⟨o, r⟩ := p
+        rcases step_cases r with hr | ⟨r', rfl, hr⟩
+        · rw [recDrain_cont w d f hs hr] at h
+          rw [recDrain_cont w d (f + 1) hs hr]
+          have h2 : (recDrain w d f st').2 = .stop := by simpa using congrArg Prod.snd h
+          have ih := recDrain_succ w d f st' (recDrain w d f st').1 (Prod.ext rfl h2)
+          rw [ih]
+          have h1 : o ++ (recDrain w d f st').1 = outs := by simpa using congrArg Prod.fst h
+          simp [h1]
+        · rw [recDrain_end w d f hs hr] at h
+          rw [recDrain_end w d (f + 1) hs hr]; exact h
+
+theorem recDrain_mono (w : RWorld) (d : Dir) {f f' : Nat} {st : List RFrame} {outs : List Out}
+    (h : recDrain w d f st = (outs, .stop)) (hf : f ≤ f') : recDrain w d f' st = (outs, .stop) := by
+  induction hf with
+  | refl => exact h
+  | step _ ih => exact recDrain_succ w d _ st outs ih
+
+/-- if the drain ends at all, it ends within `2 * (length of its output) + lastCount + 1` steps -/
+theorem recDrain_bound (w : RWorld) (d : Dir) : ∀ (f : Nat) (st : List RFrame) (outs : List Out),
+    recDrain w d f st = (outs, .stop) →
+    recDrain w d (2 * outs.length + lastCount st + 1) st = (outs, .stop)
+  | 0, _, _, h => by simp [recDrain] at h
+  | f + 1, st, outs, h => by
+      cases hs : recStep w d st with
+      | mk st' p =>
+        obtain ⟨o, r⟩ := p
+        rcases step_cases r with hr | ⟨r', rfl, hr⟩
+        · rw [recDrain_cont w d f hs hr] at h
+          have h2 : (recDrain w d f st').2 = .stop := by simpa using congrArg Prod.snd h
+          have h1 : o ++ (recDrain w d f st').1 = outs := by simpa using congrArg Prod.fst h
+          have ih := recDrain_bound w d f st' _ (Prod.ext rfl h2)
+          have pot := recStep_potential w d hs hr
+          have hle : 2 * (recDrain w d f st').1.length + lastCount st' + 1 ≤ 2 * outs.length + lastCount st := by
+            rw [← h1, List.length_append]; omega
+          have m := recDrain_mono w d ih hle
+          rw [recDrain_cont w d _ hs hr, m, h1]
+        · rw [recDrain_end w d f hs hr] at h
+          rw [recDrain_end w d _ hs hr]; exact h
+
+/-! ### histories of edits and `next()` calls -/
+
+/-- an event of a history seen by one recursive iterator -/
+inductive REv
+  | edit (g : Nat) (op : Op)
+  | next
+deriving Repr
+
+/-- every node has a home graph and is only ever a member of that graph's sequence -/
+def Homed (w : RWorld) (home : Nat → Nat) : Prop := ∀ g v, v ∈ toList (w.setOf g) → home v = g
+
+/-- the nesting (which does not depend on the node sequences) is well founded -/
+def StaticRanked (w : RWorld) (d : Dir) (rk : Nat → Nat) (home : Nat → Nat) : Prop :=
+  ∀ v, w.recurse v = true → ∀ h ∈ w.visit d v, rk h < rk (home v)
+
+theorem ranked_of_static {w : RWorld} {d : Dir} {rk home : Nat → Nat} (hh : Homed w home)
+    (hs : StaticRanked w d rk home) : Ranked w d rk := by
+  intro g v hv hrec h hvis
+  have := hs v hrec h hvis
+  rwa [hh g v hv] at this
+
+/-- the edits of a history address existing graphs and only insert nodes whose home is that graph -/
+def Admissible (n : Nat) (home : Nat → Nat) : List REv → Prop
+  | [] => True
+  | .edit g op :: es => g < n ∧ (∀ v ∈ touched op, home v = g) ∧ Admissible n home es
+  | .next :: es => Admissible n home es
+
+/-- what holds along a history: every `next()` yields members only, and at the end the world and
+    the stack are consistent and the nesting is still well founded -/
+def RecHistInv (d : Dir) (fuel : Nat) (rk home : Nat → Nat) : RWorld → List RFrame → List REv → Prop
+  | w, st, [] => WorldWF w ∧ StackOK w d rk st ∧ Homed w home ∧ Ranked w d rk
+  | w, st, .edit g op :: es => RecHistInv d fuel rk home (w.applyAt g op).1 st es
+  | w, st, .next :: es =>
+      (∀ g v, Out.yield g v ∈ (recNext w d fuel st).2.1 → v ∈ toList (w.setOf g)) ∧
+      RecHistInv d fuel rk home w (recNext w d fuel st).1 es
+
+theorem homed_applyAt {w : RWorld} {home : Nat → Nat} (hw : WorldWF w) (hh : Homed w home) (g : Nat) (op : Op)
+    (hg : g < w.sets.length) (ht : ∀ v ∈ touched op, home v = g) : Homed (w.applyAt g op).1 home := by
+  intro g' v hv
+  by_cases hgg : g' = g
+  · subst hgg
+    rw [setOf_applyAt_same w g' op hg] at hv
+    rcases mem_toList_apply (hw.setOf g') op hv with h | h
+    · exact ht v h
+    · exact hh g' v h
+  · rw [setOf_applyAt_other w g g' op hgg] at hv
+    exact hh g' v hv
+
+theorem applyAt_ok {w : RWorld} {d : Dir} {rk : Nat → Nat} (hw : WorldWF w) {st : List RFrame}
+    (ok : StackOK w d rk st) (g : Nat) (op : Op) (hg : g < w.sets.length) :
+    WorldWF (w.applyAt g op).1 ∧ StackOK (w.applyAt g op).1 d rk st := by
+  have hsame := setOf_applyAt_same w g op hg
+  obtain ⟨bs, hi⟩ := hw.setOf g
+  refine ⟨?_, ?_⟩
+  · intro s hs
+    simp only [RWorld.applyAt] at hs
+    rcases List.mem_or_eq_of_mem_set hs with h | h
+    · exact hw s h
+    · rw [h]
+      obtain ⟨bs', hi', _⟩ := sim_apply hi op .fwd .notStarted (by simpa [Cursor.pos] using hi.size_pos)
+      exact ⟨bs', hi'⟩
+  · intro fr hfr
+    have okf := ok fr hfr
+    refine ⟨?_, okf.pend, okf.last⟩
+    by_cases hfg : fr.g = g
+    · rw [hfg, hsame]
+      have hv : fr.c.pos < size (w.setOf g) := by rw [← hfg]; exact okf.valid
+      obtain ⟨_, _, _, _, hsz⟩ := sim_apply hi op d fr.c hv
+      exact Nat.lt_of_lt_of_le hv hsz
+    · rw [setOf_applyAt_other w g fr.g op hfg]; exact okf.valid
+
+theorem length_applyAt (w : RWorld) (g : Nat) (op : Op) : (w.applyAt g op).1.sets.length = w.sets.length := by
+  simp [RWorld.applyAt]
+
+/-- along every admissible history the invariants hold and only members are yielded -/
+theorem rec_history (d : Dir) (fuel : Nat) (rk home : Nat → Nat) :
+    ∀ (es : List REv) (w : RWorld) (st : List RFrame), WorldWF w → Homed w home →
+      StaticRanked w d rk home → StackOK w d rk st → Admissible w.sets.length home es →
+      RecHistInv d fuel rk home w st es
+  | [], w, st, hw, hh, hs, ok, _ => ⟨hw, ok, hh, ranked_of_static hh hs⟩
+  | .edit g op :: es, w, st, hw, hh, hs, ok, adm => by
+      obtain ⟨hg, ht, adm'⟩ := adm
+      obtain ⟨hw', ok'⟩ := applyAt_ok hw ok g op hg
+      have hh' := homed_applyAt hw hh g op hg ht
+      have hs' : StaticRanked (w.applyAt g op).1 d rk home := hs
+      show RecHistInv d fuel rk home (w.applyAt g op).1 st es
+      exact rec_history d fuel rk home es _ st hw' hh' hs' ok' (by rw [length_applyAt]; exact adm')
+  | .next :: es, w, st, hw, hh, hs, ok, adm => by
+      obtain ⟨ok', hm⟩ := recNext_ok hw (ranked_of_static hh hs) fuel st ok
+      exact ⟨hm, rec_history d fuel rk home es w _ hw hh hs ok' adm⟩
+
 end IrVerif.LinkedSet
